@@ -98,6 +98,15 @@ class Cond(object):
         return set()
 
 
+def _holds_symbols(*vals):
+    for v in vals:
+        if isinstance(v, (P, Cond)):
+            return True
+        if isinstance(v, (list, tuple)) and _holds_symbols(*v):
+            return True
+    return False
+
+
 def compare(op, x, y):
     """symbolic/concrete comparison of two scalar values"""
     if isinstance(x, P) or isinstance(y, P):
@@ -1187,7 +1196,7 @@ class Interp(object):
                     return o.cls.class_attrs[name]
             if name == '__dict__':
                 return o.attrs
-            if o.cls is None:
+            if o.cls is None or getattr(o, 'partial_model', False):
                 # an object made by a contract (stand-in for a library / dependency object): a missing attribute is a gap of the
                 # contract, not an AttributeError of the program
                 raise CheckerError('line %s: attribute %s of the contract object %s is not modelled' % (getattr(node, 'lineno', '?'), name, o.name))
@@ -1391,14 +1400,15 @@ class Interp(object):
             for x in e.values:
                 v = self.eval(x, fr)
                 if not self.truth(v):
-                    return v if not isinstance(v, (Cond, P)) else False
+                    # Python returns the operand itself (a number that is zero on this path stays that number)
+                    return v if not isinstance(v, Cond) else False
             return v if not isinstance(v, (Cond,)) else True
         v = False
         for x in e.values:
             v = self.eval(x, fr)
             if self.truth(v):
                 return v if not isinstance(v, (Cond,)) else True
-        return v if not isinstance(v, (Cond, P)) else False
+        return v if not isinstance(v, Cond) else False
 
     def ex_UnaryOp(self, e, fr):
         v = self.eval(e.operand, fr)
@@ -1512,6 +1522,24 @@ class Interp(object):
             return compare(sym, a, b)
         if (a is None or b is None) and sym not in ('==', '!='):
             raise SymRaise('TypeError', ("'%s' not supported between NoneType and number" % sym,), node)
+        if isinstance(a, (list, tuple)) and isinstance(b, (list, tuple)) and type(a) is type(b) and _holds_symbols(a, b):
+            # sequences with symbolic items: equal iff every pair of items is equal (a conjunction of conditions, not Python's
+            # structural equality of the polynomial objects)
+            if sym not in ('==', '!='):
+                raise CheckerError('line %s: ordering of sequences with symbolic items is not modelled' % getattr(node, 'lineno', '?'))
+            if len(a) != len(b):
+                return sym == '!='
+            acc = True
+            for x, y in zip(a, b):
+                r = self.cmp1(ast.Eq(), x, y, node)
+                if isinstance(r, Cond):
+                    acc = r if acc is True else Cond('and', acc, r)
+                elif not r:
+                    acc = False
+                    break
+            if sym == '==':
+                return acc
+            return acc.neg() if isinstance(acc, Cond) else (not acc)
         import numpy as np
         if isinstance(a, np.ndarray) or isinstance(b, np.ndarray):
             raise CheckerError('line %d: array comparison not supported' % node.lineno)
